@@ -99,10 +99,17 @@ def unpackIn (fs : FS) (srcDir : Path) (e : Entry) : Step :=
         if !(cd.isPrefixOf cp) then .error
         else
           let target := cp ++ [rel.getLastD 0]
-          match e.kind with
-          | .dir => .ok (match lookup fs1 target with | none => set fs1 target .dir | some _ => fs1)
-          | .file c => .ok (set fs1 target (.file c))           -- an existing node is replaced, not followed
-          | .symlink t => .ok (set fs1 target (.symlink t))
+          -- tar refuses to replace a directory by a file or link (`remove_file` fails), and a
+          -- non-directory by a directory
+          match e.kind, lookup fs1 target with
+          | .dir, none => .ok (set fs1 target .dir)
+          | .dir, some .dir => .ok fs1
+          | .dir, some (.symlink t) => if lookup fs1 t == some .dir then .ok fs1 else .error
+          | .dir, some (.file _) => .error
+          | .file _, some .dir => .error
+          | .file c, _ => .ok (set fs1 target (.file c))       -- an existing file or link is replaced, not followed
+          | .symlink _, some .dir => .error
+          | .symlink t, _ => .ok (set fs1 target (.symlink t))
       | _, _ => .error
   
 /-- unpack the first `k` entries (a crash or corrupt download cuts the rest off); the marker is
